@@ -153,6 +153,10 @@ pub struct Report {
     /// free-list ids.  Padding bytes, slack after the last element and unreachable pages are left
     /// out (the library writes uninitialised padding, so raw bytes are not canonical).
     pub struct_hash: u128,
+    /// deviations from the pinned layout that no reader depends on (e.g. the id field of a header
+    /// page, which is outside the checksummed record): reported by the write-side conformance check
+    /// only, never as a structural error
+    pub layout_notes: Vec<String>,
     /// the same, but without anything that grows with the number of transactions: the transaction
     /// id, the header slot and every insertion counter are left out (C10 closure search)
     pub rel_hash: u128,
@@ -442,7 +446,7 @@ pub fn check_with_meta(buf: &[u8], pagesize: u64, meta: &MetaRec) -> Report {
     for slot in 0..2u64 {
         let start = (slot * pagesize) as usize;
         if u64_at(buf, start) != Some(slot) && slot == meta.slot {
-            w.err(format!("header page {} carries id {:?}", slot, u64_at(buf, start)));
+            rep.layout_notes.push(format!("header page {} carries id {:?}", slot, u64_at(buf, start)));
         }
     }
     // free list page
